@@ -441,6 +441,7 @@ func checkMain(args []string) {
 	}
 	sort.Strings(classes)
 	knownSeen := map[*knownFinding]int64{}
+	var irreproducible []string
 	shrinkStart := time.Now()
 	for _, cl := range classes {
 		f := found[cl]
@@ -466,11 +467,24 @@ func checkMain(args []string) {
 			reproduced = cmd.ProcessState != nil && cmd.ProcessState.ExitCode() == 1 && strings.Contains(string(out), "REPRODUCED class="+mv.Class())
 		}
 		if !reproduced {
-			infra("replay of %s did not reproduce class %s in a fresh process (harness nondeterminism?):\n%s", path, mv.Class(), tail(string(out), 1500))
+			// not believed, hence not reported. If nothing else reproduces
+			// either, the run ends as an infrastructure error below; a tree
+			// whose behaviour depends on something no process can repeat
+			// (pointer values used as map keys, goroutines of its own) may
+			// produce such a class next to others that do reproduce.
+			irreproducible = append(irreproducible, fmt.Sprintf("%s: %s", mv.Class(), tail(string(out), 600)))
+			os.Remove(path)
+			continue
 		}
 		lines = append(lines, fmt.Sprintf("VIOLATION property=%s replay=%s", *prop, path))
 		fmt.Printf("  %s | %s | %s\n", mv.Clause, mv.Where, mv.Detail)
 		violations++
+	}
+	for _, ir := range irreproducible {
+		fmt.Printf("IRREPRODUCIBLE (not reported as a violation): %s\n", firstLines(ir, 2))
+	}
+	if violations == 0 && len(irreproducible) > 0 {
+		infra("%d violation class(es) were found by the workers but none reproduced in a fresh process (harness nondeterminism?); first: %s", len(irreproducible), irreproducible[0])
 	}
 	for i := range known {
 		k := &known[i]
